@@ -31,6 +31,9 @@ type Incarnation struct {
 	closed bool // closed by the endpoint or EOF seen
 }
 
+// RemoteAddr is the peer's address of this accepted connection.
+func (i *Incarnation) RemoteAddr() string { return i.conn.RemoteAddr().String() }
+
 func (i *Incarnation) Bytes() []byte {
 	i.mu.Lock()
 	defer i.mu.Unlock()
@@ -56,6 +59,9 @@ type Endpoint struct {
 	done          chan struct{}
 	wg            sync.WaitGroup
 	downOnce      sync.Once
+	acceptErr     error
+	isDown        bool
+	downRst       bool
 	total         int64
 }
 
@@ -122,10 +128,23 @@ func (e *Endpoint) acceptLoop() {
 	for {
 		c, err := e.ln.AcceptTCP()
 		if err != nil {
+			e.mu.Lock()
+			e.acceptErr = err
+			e.mu.Unlock()
 			return
 		}
 		inc := &Incarnation{conn: c}
 		e.mu.Lock()
+		if e.isDown {
+			// accepted while Down() was closing the others: an endpoint that has gone away keeps no connection open
+			// (left open and unread, the relay would write into it "successfully" for ever)
+			e.mu.Unlock()
+			if e.downRst {
+				c.SetLinger(0)
+			}
+			c.Close()
+			return
+		}
 		e.incs = append(e.incs, inc)
 		e.mu.Unlock()
 		select {
@@ -224,6 +243,13 @@ func (e *Endpoint) All() []byte {
 	return out
 }
 
+// Status describes the endpoint for diagnostics.
+func (e *Endpoint) Status() string {
+	e.mu.Lock()
+	defer e.mu.Unlock()
+	return fmt.Sprintf("addr=%s mode=%d accepted=%d acceptLoopEnded=%v", e.Addr, e.Mode(), len(e.incs), e.acceptErr)
+}
+
 // WaitPeerClosed waits (bounded) until the peer has closed every accepted connection,
 // i.e. every serve loop has seen EOF or an error.  Destination.Shutdown returns as soon
 // as the relay loop has taken the signal; the final flush and the close of the connection
@@ -260,6 +286,7 @@ func (e *Endpoint) down(rst bool) {
 	e.ln.Close()
 	close(e.done)
 	e.mu.Lock()
+	e.isDown, e.downRst = true, rst
 	for _, i := range e.incs {
 		if rst {
 			if tc, ok := i.conn.(*net.TCPConn); ok {
